@@ -51,17 +51,21 @@ Spec == Init /\ [][Next]_prog
 \* Sampling: one pseudo-random instance of Grow per step (TLC's simulator would otherwise
 \* enumerate the thousands of successors of every state).  SpecSim refines Spec; the
 \* property StepIsGrow lets TLC check exactly that on every sampled step.
+\* operations left out of the sampling (none by default; the Python layer does not expose PyExcluded: a configuration
+\* overrides  Excluded <- PyExcluded  so that every sampled program can be written against the Python classes)
+Excluded == {}
+PyExcluded == {"abs", "atan2", "sum", "product"}
 RE(S) == RandomElement(S)
 RandNode ==
     LET cat == RE(1..12)
         a == RE(Avail)  b == RE(Avail)  c == RE(Avail)
         sc == Scalars[RE(1..Len(Scalars))]
-    IN  CASE cat \in 1..4  -> Node(RE(Unary), "", a, a, a, <<0, 1>>, 0, <<>>)
+    IN  CASE cat \in 1..4  -> Node(RE(Unary \ Excluded), "", a, a, a, <<0, 1>>, 0, <<>>)
           [] cat = 5       -> Node(RE(UnaryS), "op", a, a, a, sc, 0, <<>>)
           [] cat = 6       -> Node("powi", "", a, a, a, <<0, 1>>, RE(Exps), <<>>)
-          [] cat \in 7..9  -> LET op == RE(Binary)
+          [] cat \in 7..9  -> LET op == RE(Binary \ Excluded)
                               IN  Node(op, IF op \in {"powd", "atan2"} THEN "" ELSE RE(Forms), a, b, a, <<0, 1>>, 0, <<>>)
-          [] cat = 10      -> Node("mul_add", "", a, b, c, <<0, 1>>, 0, <<>>)
+          [] cat = 10 \/ (cat = 11 /\ "sum" \in Excluded) -> Node("mul_add", "", a, b, c, <<0, 1>>, 0, <<>>)
           [] cat = 11      -> LET k == RE(1..3) IN
                               Node(RE({"sum", "product"}), RE({"owned", "ref"}), 1, 1, 1, <<0, 1>>, 0,
                                    [i \in 1..k |-> RE(Avail)])
